@@ -28,6 +28,9 @@ TRUSTED = [
     'decision function (the harness writes real authorized_keys lines and real certificates, so parsing is exercised, '
     'not modelled); X.509 certificates, GSSAPI and host-based credentials carry no forwarding restrictions in asyncssh '
     'and are not generated',
+    'C20: channel flow control is not in the model (the tunnel\'s channel is two FIFO queues): that a half-closed channel '
+    'keeps granting window to the direction that still flows is delegated to C08 and checked here only by the end-to-end '
+    'oracle (half-close, then more than one 2 MiB channel window in the other direction, every forwarding kind, both orders)',
     'C20: X11, agent and TUN/TAP forwarding are outside the property text and not covered',
 ]
 
@@ -40,7 +43,9 @@ RULE = ('pair: operation lists over {DataA d, DataB d, EofA, EofB, CloseA, Close
         'credentials (authorized_keys options incl. permitopen lists, certificates with all / some / no options, password) '
         'x request kind x destination (biased to the permitopen entries, neighbours, case variants) x application answer, '
         'on a real server. registry: Begin/Finish/Close/Cleanup lists on a real connection with gated getaddrinfo. '
-        'e2e: scenario templates (normal, early data, crossed EOF, loss, abrupt close/reset, listener closed) x 7 forwarding '
+        'e2e: scenario templates (normal, early data, crossed EOF, loss, abrupt close/reset, listener closed, half-close followed by more '
+        'than a channel window the other way) x 7 forwarding kinds; several dynamic-port listeners per connection, ended by close / abort / loss; '
+        'all x 7 forwarding '
         'kinds over real loopback TCP / UNIX sockets; races: connection lost while a listener / destination connection is '
         'being created. A case is non-trivial when it relays data or reaches a decision.')
 
@@ -228,6 +233,29 @@ def stage_socks(ctx):
             if bad:
                 ctx.failing_input('SOCKS: ' + '; '.join(bad), {'kind': 'socks_assert', 'chunks': [list(c) for c in chunks],
                                                                 'wellformed': False})
+    # EOF from the client after a prefix of a request (and after complete / malformed input)
+    ecases, emeta = [], []
+    n_eof = 120 if ctx.tier == 'quick' else 1200
+    stuck = 0
+    for i in range(n_eof):
+        data = P.enc_socks(rng)[0] if i % 3 else P.malformed_socks(rng)
+        cut = rng.randint(0, len(data)) if rng.random() < 0.8 else len(data)
+        chunks = P.chunkings(rng, data[:cut], 3)[-1]
+        r = P.run_socks(chunks, eof=True)
+        d, k, c = r['eof']
+        ecases.append(f'({clist(chunks, zl)}, ({cbool(d)}, {cbool(k)}, {cbool(c)}))')
+        emeta.append(chunks)
+        ctx.note_case(('socks_eof', tuple(chunks)), nontrivial=True)
+        ctx.count('socks_eof')
+        if d and r['req'] is None and not c:
+            stuck += 1
+            ctx.failing_input('SOCKS: client half-closed before its request was complete and the forwarder keeps the '
+                              'socket open with no tunnel that could ever close it',
+                              {'kind': 'socks_eof_before_request', 'eof': True, 'chunks': [list(x) for x in chunks], 'wellformed': False})
+    em = ctx.coq_cases('socks_eof', IMPORTS, 'chk_socks_eof', ecases, ty='list bytes * (bool * bool * bool)')
+    if em:
+        ctx.broke('correspondence:socks_eof', f'{len(em)} mismatches, first: chunks={emeta[em[0]]!r} observed={P.run_socks(emeta[em[0]], eof=True)["eof"]!r}')
+    ctx.count('socks_eof_left_open', stuck)
     ctx.sample({'socks_chunks': [list(c) for c in meta[1][:6]]})
     mism = ctx.coq_cases('socks', IMPORTS, 'chk_socks', cases, ty='list bytes * socks_obs')
     if mism:
@@ -243,6 +271,12 @@ def stage_socks(ctx):
 
 def replay_socks(rp):
     chunks = [bytes(c) for c in rp['chunks']]
+    if rp.get('eof'):
+        r = P.run_socks(chunks, eof=True)
+        d, k, c = r['eof']
+        bad = d and r['req'] is None and not c
+        print('socks eof replay:', r['eof'], 'FAIL' if bad else 'ok')
+        return 1 if bad else 0
     r = P.run_socks(chunks)
     if rp.get('wellformed'):
         bad = socks_oracle_good((bytes(rp['expect'][0]), rp['expect'][1]), bytes(rp['tail']), r)
@@ -329,7 +363,8 @@ def replay_perm(rp):
 def stage_registry(ctx):
     rng = ctx.rng
     n = 25 if ctx.tier == 'quick' else 150
-    fixed = [[('B', 1), ('X',), ('F', 1)], [('B', 1), ('F', 1), ('X',)], [('B', 1), ('B', 2), ('F', 2), ('C', 2), ('X',), ('F', 1)],
+    fixed = [[('B', 1), ('F', 1), ('B', 2), ('F', 2), ('X',)], [('B', 1), ('F', 1), ('B', 2), ('F', 2), ('B', 3), ('F', 3), ('C', 2), ('X',)],
+             [('B', 1), ('X',), ('F', 1)], [('B', 1), ('F', 1), ('X',)], [('B', 1), ('B', 2), ('F', 2), ('C', 2), ('X',), ('F', 1)],
              [('B', 1), ('F', 1), ('C', 1), ('B', 2), ('F', 2)]]
     work = fixed + [E.gen_registry_ops(rng) for _ in range(n)]
 
@@ -381,6 +416,8 @@ def _workdir(ctx_work):
 
 
 def run_e2e_once(sc, workdir):
+    if 'dynports' in sc:
+        return _loop_run(E.dynports_scenario(sc)), {}
     if 'race' in sc:
         sc = dict(sc)
         sc['workdir'] = workdir
@@ -392,6 +429,12 @@ E2E_KIND = {'crossed': 'crossed_eof_leak'}
 
 
 def classify(sc, bad):
+    if 'dynports' in sc:
+        return 'dynamic_port_listener_left'
+    if sc.get('template') == 'socks_partial':
+        return 'socks_eof_before_request'
+    if sc.get('template') == 'window':
+        return 'half_close_window_stall'
     if 'race' in sc:
         return 'dest_socket_after_loss' if sc['race'].startswith('dest') else 'listener_after_loss'
     names = [s[0] for s in sc['steps']]
@@ -400,6 +443,18 @@ def classify(sc, bad):
     if sc.get('template') == 'early' and ('rst' in names):
         return 'lost_before_confirm'
     return 'e2e'
+
+
+def _window_scenario(fwd, first):
+    second = 'd' if first == 'c' else 'c'
+    n = E.WINDOW_PLUS // 3
+    return {'fwd': fwd, 'template': 'window',
+            'steps': [['connect'], ['send', 'c', 100, 1], ['send', 'd', 100, 2], ['sync'], ['eof', first], ['sync'],
+                      ['send', second, n, 3], ['send', second, n + 7, 4], ['send', second, n + 11, 5], ['sync'],
+                      ['eof', second], ['sync']]}
+
+
+DYN_APIS = ['local_port', 'socks', 'remote_port', 'start_server', 'local_port_to_path', 'local_port_any']
 
 
 def stage_e2e(ctx):
@@ -423,6 +478,15 @@ def _stage_e2e(ctx):
     for t in templates:
         for f in E.FWD_KINDS:
             scs.append(E.gen_scenario(rng, t, f))
+    # both half-close orders x every forwarding kind with more than a channel window afterwards
+    for f in E.FWD_KINDS:
+        for first in ('c', 'd'):
+            scs.append(_window_scenario(f, first))
+    # a SOCKS client that goes away before its request is complete
+    for f, ln in (('socks5', 19), ('socks4', 13), ('socks4a', 17)):
+        for n in sorted({0, 1, 2, 3, ln // 2, ln - 1} if quick else set(range(ln))):
+            scs.append({'fwd': f, 'template': 'socks_partial',
+                        'steps': [['connect_partial', n], [rng.choice(['eof', 'close', 'rst']), 'c'], ['settle', 30]]})
     # the two orders that used to leak, pinned
     for f in ('local_port', 'socks5', 'remote_port', 'local_path'):
         scs.append({'fwd': f, 'template': 'early', 'steps': [['hold'], ['connect'], ['send', 'c', 5, 1], ['settle', 30],
@@ -436,12 +500,20 @@ def _stage_e2e(ctx):
     for kind in ('listen_client', 'listen_server', 'listen_server_unix', 'dest', 'dest_gated'):
         for turns in ((0, 1, 3) if quick else (0, 1, 2, 3, 5, 8)):
             races.append({'race': kind, 'turns': turns})
+    dyn = []
+    for end in ('close', 'abort', 'cut'):
+        dyn.append({'dynports': ['local_port', 'local_port'], 'end': end})
+        dyn.append({'dynports': ['socks', 'socks', 'remote_port', 'remote_port'], 'end': end})
+        dyn.append({'dynports': ['start_server', 'local_port_to_path', 'local_port_to_path', 'start_server', 'local_port_any',
+                                 'local_port_any'], 'end': end})
+    for _ in range(3 if quick else 40):
+        dyn.append({'dynports': [rng.choice(DYN_APIS) for _ in range(rng.randint(2, 6))], 'end': rng.choice(['close', 'abort', 'cut'])})
     nonrepro = 0
     tcount = {}
     relayed = 0
     failed_by = {}
-    for sc in scs + races:
-        name = sc.get('template') or ('race_' + sc['race'])
+    for sc in scs + races + dyn:
+        name = sc.get('template') or ('race_' + sc['race'] if 'race' in sc else 'dynports')
         if failed_by.get(name, 0) >= 2 or sum(failed_by.values()) >= 4:
             # circuit breaker: each reproduced failure costs backstop time; two per template, four in all are enough
             ctx.count('e2e_skipped_after_failures')
@@ -470,6 +542,8 @@ def _stage_e2e(ctx):
     shutil.rmtree(workdir, ignore_errors=True)
     if relayed < 100000:
         ctx.broke('vacuity:e2e_bytes', f'only {relayed} bytes were sent through real sockets')
+    if tcount.get('window', 0) < 14 or tcount.get('dynports', 0) < 9:
+        ctx.broke('vacuity:e2e_window_dynports', repr(tcount))
     for t in templates:
         if tcount.get(t, 0) < 7:
             ctx.broke('vacuity:e2e_' + t, 'template not exercised on every forwarding kind')
